@@ -53,16 +53,17 @@ func (a *Acct) S() string { return a.Addr.String() }
 
 // Chain wraps one JackalApp instance.
 type Chain struct {
-	App     *app.JackalApp
-	H       int64
-	T       time.Time
-	Step    time.Duration
-	Ctx     sdk.Context // deliver-state context of the open block (valid between Begin and End)
-	dir     string
-	labels  map[string]string // bech32 -> label
-	Accts   map[string]*Acct
-	ChainID string
-	Open    bool // a block is open (Begin succeeded, End not yet called)
+	SimulateOnly bool // Deliver only simulates (no state change expected) while set
+	App          *app.JackalApp
+	H            int64
+	T            time.Time
+	Step         time.Duration
+	Ctx          sdk.Context // deliver-state context of the open block (valid between Begin and End)
+	dir          string
+	labels       map[string]string // bech32 -> label
+	Accts        map[string]*Acct
+	ChainID      string
+	Open         bool // a block is open (Begin succeeded, End not yet called)
 }
 
 type GenMut func(gs app.GenesisState, a *app.JackalApp)
@@ -226,6 +227,14 @@ func (c *Chain) Deliver(msgs []sdk.Msg, signers ...*Acct) abci.ResponseDeliverTx
 	bz, err := txc.TxEncoder()(tx)
 	if err != nil {
 		return abci.ResponseDeliverTx{Code: 1, Log: "encode: " + err.Error(), Codespace: "vh"}
+	}
+	if c.SimulateOnly {
+		// what a node serving /app/simulate (gas estimation) does: the transaction runs on a throw-away branch of the state
+		func() {
+			defer func() { recover() }()
+			c.App.Simulate(bz) //nolint:errcheck
+		}()
+		return abci.ResponseDeliverTx{}
 	}
 	return c.App.DeliverTx(abci.RequestDeliverTx{Tx: bz})
 }
